@@ -491,4 +491,130 @@ theorem startsWith_cons_cons (c d : Char) (s pre : List Char) :
 theorem startsWith_append (pre s : List Char) : startsWith (pre ++ s) pre = true := by
   simp [startsWith]
 
+/-! ### more `join` lemmas -/
+
+theorem mem_join_of_mem {sep : List Char} {parts : List (List Char)} {p : List Char} {c : Char}
+    (hp : p ∈ parts) (hc : c ∈ p) : c ∈ join sep parts := by
+  induction parts with
+  | nil => cases hp
+  | cons q qs ih =>
+    cases qs with
+    | nil =>
+      have : p = q := by simpa using hp
+      subst this; simpa [join] using hc
+    | cons r rs =>
+      simp only [join, List.append_assoc, List.mem_append]
+      rcases List.mem_cons.mp hp with e | e
+      · subst e; exact .inl hc
+      · exact .inr (.inr (ih e))
+
+/-- the first character of a joined list is the first character of its first part -/
+theorem join_cons_cons (sep : List Char) (x : Char) (xs : List Char) (ps : List (List Char)) :
+    ∃ rest, join sep ((x :: xs) :: ps) = x :: rest := by
+  cases ps with
+  | nil => exact ⟨xs, rfl⟩
+  | cons q qs => exact ⟨xs ++ sep ++ join sep (q :: qs), by simp [join]⟩
+
+/-- the last character of a joined list belongs to one of the parts -/
+theorem join_eq_concat {sep : List Char} {parts : List (List Char)} (hne : parts ≠ [])
+    (h : ∀ p ∈ parts, p ≠ []) :
+    ∃ init y, join sep parts = init ++ [y] ∧ ∃ p ∈ parts, y ∈ p := by
+  induction parts with
+  | nil => exact absurd rfl hne
+  | cons p ps ih =>
+    cases ps with
+    | nil =>
+      have hp := h p List.mem_cons_self
+      refine ⟨p.dropLast, p.getLast hp, ?_, p, List.mem_cons_self, List.getLast_mem hp⟩
+      simp [join, List.dropLast_concat_getLast]
+    | cons q qs =>
+      obtain ⟨init, y, he, r, hr, hy⟩ := ih (by simp) (fun r hr => h r (List.mem_cons_of_mem _ hr))
+      refine ⟨p ++ sep ++ init, y, ?_, r, List.mem_cons_of_mem _ hr, hy⟩
+      simp only [join, he, List.append_assoc]
+
+/-! ### more lemmas on the ASCII test -/
+
+theorem isAsciiRepr_iff (s : List Char) :
+    isAsciiRepr s = true ↔ (∀ c ∈ s, reprPlain c = true) ∧ ¬ ('\'' ∈ s ∧ '"' ∈ s) := by
+  simp only [isAsciiRepr, Bool.and_eq_true, List.all_eq_true, Bool.not_eq_true',
+    Bool.and_eq_false_iff, List.contains_eq_mem, decide_eq_false_iff_not]
+  constructor
+  · rintro ⟨h1, h2⟩
+    exact ⟨h1, fun ⟨a, b⟩ => h2.elim (fun h => h a) (fun h => h b)⟩
+  · rintro ⟨h1, h2⟩
+    refine ⟨h1, ?_⟩
+    by_cases a : '\'' ∈ s
+    · exact .inr (fun b => h2 ⟨a, b⟩)
+    · exact .inl a
+
+/-- the ASCII test passes on every text made of characters of a text that passes -/
+theorem isAsciiRepr_of_subset {a b : List Char} (h : ∀ c ∈ a, c ∈ b)
+    (hb : isAsciiRepr b = true) : isAsciiRepr a = true := by
+  rw [isAsciiRepr_iff] at hb ⊢
+  exact ⟨fun c hc => hb.1 c (h c hc), fun ⟨h1, h2⟩ => hb.2 ⟨h _ h1, h _ h2⟩⟩
+
+/-- the ASCII test only depends on the set of characters -/
+theorem isAsciiRepr_congr {a b : List Char} (h : ∀ c, c ∈ a ↔ c ∈ b) :
+    isAsciiRepr a = isAsciiRepr b := by
+  cases ha : isAsciiRepr a <;> cases hb : isAsciiRepr b <;> try rfl
+  · rw [isAsciiRepr_of_subset (fun c hc => (h c).mp hc) hb] at ha; cases ha
+  · rw [isAsciiRepr_of_subset (fun c hc => (h c).mpr hc) ha] at hb; cases hb
+
+/-- the ASCII test depends only on "all characters plain" and on which quotes occur -/
+theorem isAsciiRepr_eq_of {a b : List Char}
+    (h1 : (∀ c ∈ a, reprPlain c = true) ↔ (∀ c ∈ b, reprPlain c = true))
+    (h2 : '\'' ∈ a ↔ '\'' ∈ b) (h3 : '"' ∈ a ↔ '"' ∈ b) : isAsciiRepr a = isAsciiRepr b := by
+  rw [Bool.eq_iff_iff, isAsciiRepr_iff, isAsciiRepr_iff, h1, h2, h3]
+
+theorem mem_lower_of_not_letter {d : Char} (hd : lowerChar d = d) (hu : upperChar d = d)
+    (s : List Char) : d ∈ lower s ↔ d ∈ s := by
+  have := contains_lower_of_not_letter hd hu s
+  simp only [List.contains_eq_mem, decide_eq_decide] at this
+  exact this
+
+theorem all_reprPlain_lower (s : List Char) :
+    (∀ c ∈ lower s, reprPlain c = true) ↔ (∀ c ∈ s, reprPlain c = true) := by
+  simp only [lower, List.mem_map, forall_exists_index, and_imp, forall_apply_eq_imp_iff₂,
+    reprPlain_lowerChar]
+
+/-- lower-casing a piece of the text does not change the ASCII test -/
+theorem isAsciiRepr_lower_mid (x a y : List Char) :
+    isAsciiRepr (x ++ lower a ++ y) = isAsciiRepr (x ++ a ++ y) := by
+  have hq1 := mem_lower_of_not_letter (d := '\'') (by decide) (by decide) a
+  have hq2 := mem_lower_of_not_letter (d := '"') (by decide) (by decide) a
+  have hall := all_reprPlain_lower a
+  apply isAsciiRepr_eq_of
+  · simp only [List.mem_append, or_imp, forall_and, hall]
+  · simp only [List.mem_append, hq1]
+  · simp only [List.mem_append, hq2]
+
+/-- adding plain characters that are not quotes does not change the ASCII test -/
+theorem isAsciiRepr_pad {x a y : List Char} (p q : List Char)
+    (hp : ∀ c ∈ p, reprPlain c = true ∧ c ≠ '\'' ∧ c ≠ '"')
+    (hq : ∀ c ∈ q, reprPlain c = true ∧ c ≠ '\'' ∧ c ≠ '"') :
+    isAsciiRepr (x ++ (p ++ a ++ q) ++ y) = isAsciiRepr (x ++ a ++ y) := by
+  have np1 : '\'' ∉ p := fun h => (hp _ h).2.1 rfl
+  have np2 : '"' ∉ p := fun h => (hp _ h).2.2 rfl
+  have nq1 : '\'' ∉ q := fun h => (hq _ h).2.1 rfl
+  have nq2 : '"' ∉ q := fun h => (hq _ h).2.2 rfl
+  apply isAsciiRepr_eq_of
+  · constructor
+    · intro h c hc
+      apply h c
+      simp only [List.mem_append] at hc ⊢
+      rcases hc with (hc | hc) | hc
+      · exact .inl (.inl hc)
+      · exact .inl (.inr (.inl (.inr hc)))
+      · exact .inr hc
+    · intro h c hc
+      simp only [List.mem_append] at hc
+      rcases hc with (hc | ((hc | hc) | hc)) | hc
+      · exact h c (by simp [hc])
+      · exact (hp c hc).1
+      · exact h c (by simp [hc])
+      · exact (hq c hc).1
+      · exact h c (by simp [hc])
+  · simp only [List.mem_append, np1, nq1, false_or, or_false]
+  · simp only [List.mem_append, np2, nq2, false_or, or_false]
+
 end Univers.Text.Str
